@@ -28,7 +28,10 @@ META = {
             "application writes 1-2 stdout chunks + stderr from inside a request callback (transport thread) while "
             "a re-exchange (either initiator) is in progress and a user thread sends / shuts down / closes after "
             "the callback returned: every schedule within delay bound 1/2 of the end of the exchange; the client "
-            "must read the callback's bytes, then the user thread's.",
+            "must read the callback's bytes, then the user thread's. Plus [packetizer writers] two threads calling "
+            "Packetizer.send_message on one keyed Packetizer (compression none / zlib, CTR+HMAC / GCM; 1-2 messages each): "
+            "every schedule within preemption bound 2 at source-line granularity inside send_message; the receiving "
+            "Packetizer must decode exactly the messages sent, one per packet, each writer's in order.",
     "note": "small scope instead of 8 channels x 512 KiB; system runs to quiescence between operations (event mode), "
             "so only operation-level interleavings are explored, not preemptions inside an operation",
     "design_ref": "4/C21",
@@ -639,6 +642,98 @@ def run_reopen(item, acc):
                     "streams_ok": True})
 
 
+# ------------------------------------------------------------------ concurrent writers on one Packetizer
+# Everything a transport sends - channel data from application threads, replies from the transport thread -
+# goes through Packetizer.send_message; with compression the deflate stream is shared state.  Narrow seam:
+# 2 threads call send_message on one keyed Packetizer (un-started Transport, one-way byte queue), every
+# schedule within a preemption bound at source-line granularity inside send_message; the receiving
+# Packetizer must decode exactly the messages sent, one per packet, each thread's own messages in order.
+import paramiko.packet as ppacket
+from vmc import pktseam
+
+PKW_TRACE = {ppacket.__file__: {"send_message"}}
+PKW_SUITES = {"plain": ("aes128-ctr", "hmac-sha2-256", "none"), "zlib": ("aes128-ctr", "hmac-sha2-256", "zlib"),
+              "gcm-zlib": ("aes128-gcm@openssh.com", "hmac-sha2-256", "zlib")}
+
+
+def make_pkw_body(wscn):
+    suite, per_thread = wscn
+
+    def body(s):
+        link = pktseam.Link("c2s")
+        link.switch(PKW_SUITES[suite])
+        msgs = [[bytes([94]) + bytes([0x61 + t]) * (20 + 7 * t) + bytes([0x30 + i]) * 9 for i in range(per_thread)]
+                for t in range(2)]
+
+        def writer(mine):
+            for d in mine:
+                link.send(d)
+        ths = [vthreading.Thread(target=writer, args=(m,)) for m in msgs]
+        s.branching = True
+        s.line_points = True
+        for t in ths:
+            t.start()
+        for t in ths:
+            t.join()
+        s.branching = False
+        s.line_points = False
+        for t in ths:
+            if t._vt_rec.obj is not None:
+                raise t._vt_rec.obj
+        got, err = [], None
+        for _ in range(2 * per_thread + 2):
+            try:
+                ptype, data = link.read()
+                got.append(bytes([ptype]) + bytes(data))
+            except pktseam.NeedMoreData:
+                break
+            except Exception as e:      # noqa - a packet the receiver cannot decode is the finding
+                err = "%s: %s" % (type(e).__name__, e)
+                break
+        return got, err, msgs
+    return body
+
+
+def pkw_verdict(value):
+    got, err, msgs = value
+    if err:
+        return "packetizer-writers:receiver-rejects-stream"
+    if sorted(got) != sorted(m for th in msgs for m in th):
+        return "packetizer-writers:messages-lost-merged-or-altered"
+    for th in msgs:
+        if [g for g in got if g in th] != th:
+            return "packetizer-writers:one-writers-messages-reordered"
+    return None
+
+
+def run_pkw(item, acc):
+    tier, wscn, bound = item
+    seen = set()
+
+    def on_exec(ex):
+        acc.ev()
+        if ex.outcome != "ok":
+            acc.violation("packetizer-writers:harness:%s" % ex.outcome, {"scn": wscn, "err": repr(ex.error)[:200]},
+                          {"pkw": wscn, "choices": ex.choices})
+            return
+        got = tuple(ex.value[0])
+        if got not in seen:
+            seen.add(got)
+            acc.nt(("pkw", wscn, got))
+        v = pkw_verdict(ex.value)
+        if v:
+            acc.violation(v, {"scn": wscn, "received": [g[:12].hex() for g in ex.value[0]], "err": ex.value[1],
+                              "choices": ex.choices}, {"pkw": wscn, "choices": ex.choices})
+    res = explore.explore(make_pkw_body(wscn), bound, "preempt", cap=20000, on_exec=on_exec,
+                          sched_kw={"trace_files": PKW_TRACE})
+    acc.count("packetizer_writer_schedules", res.executions)
+    if res.capped:
+        acc.note("cap 20000 hit pkw %r" % (wscn,))
+    if len(acc.samples) < 6:
+        acc.sample({"packetizer_writers": {"suite": wscn[0], "messages_per_thread": wscn[1]},
+                    "preemption_bound": bound, "schedules": res.executions, "distinct_arrival_orders": len(seen)})
+
+
 def scenarios(tier):
     out = []
     quick = tier == "quick"
@@ -733,6 +828,9 @@ def main(tier):
     conc = [(tier, (comp, sizes, pr), 1 if tier == "quick" else 2) for comp in (False, True, "zlib")
             for sizes in (((5, 70),) if tier == "quick" else ((5, 70), (300, 300))) for pr in (False, True)]
     ck.merge(core.pmap(conc, run_conc))
+    pkw = [(tier, (suite, n), 2) for suite in (("zlib", "plain") if tier == "quick" else ("zlib", "plain", "gcm-zlib"))
+           for n in ((1, 2) if tier != "quick" or suite == "zlib" else (1,))]
+    ck.merge(core.pmap(pkw, run_pkw))
     parked = [(tier, (n, uop, ini), 1 if tier == "quick" else 2) for n in (1, 2)
               for uop in ("send", "close", "shutdown_write") for ini in ("s", "c")]
     ck.merge(core.pmap(parked, run_parked))
@@ -764,6 +862,10 @@ def replay(rec):
         ex = S.run_once(make_reopen_body(tuple(r["reopen"])), horizon=S.EPOCH + 300)
         print(ex.outcome, ex.error, ex.value)
         return 1 if ex.outcome != "ok" or any(o != pl or e != pl.upper() or cl for pl, o, e, cl in ex.value[0]) else 0
+    if "pkw" in r:
+        ex = explore.replay(make_pkw_body(tuple(r["pkw"])), r["choices"], "preempt", {"trace_files": PKW_TRACE})
+        print(ex.outcome, ex.error, ex.value)
+        return 1 if (ex.outcome != "ok" or pkw_verdict(ex.value)) else 0
     if "race" in r:
         ex = explore.replay(make_race_body(tuple(r["race"])), r["choices"], "preempt", {"trace_files": RACE_TRACE})
         print(ex.outcome, ex.error, ex.value)
